@@ -294,6 +294,109 @@ theorem gcBack_direct (prog : List Step) (al : Nat → List Nat) (rl : Live)
             · have := live_complete al rl rest b.id ⟨t, htrest, b, hb, hbc, rfl⟩ hbdef
               rw [hbdead] at this; cases this
 
+/-! ## Safety for any alias table that covers everything pointing into a value -/
+
+/-- If the alias table lists every value that points into `v` (transitively,
+through every rewiring operand), then no `gc a` in the result is followed by a
+read of a value that points into `a`. -/
+theorem gcBack_covered (prog : List Step) (al : Nat → List Nat) (rl : Live)
+    (hnogc : ∀ s ∈ prog, s.op ≠ .gc) (hssa : (outs prog).Nodup)
+    (hal : ∀ w v, PointsInto prog w v → w ≠ v → w ∈ al v) :
+    ∀ (pre0 l : List Step), prog = pre0 ++ l → dbu l = true →
+    ∀ pre post g, (gcBack al rl l).1 = pre ++ g :: post → g.op = .gc →
+      ∃ a, g = gcStep a ∧ a.const = false ∧
+        ∀ t ∈ post, t.op ≠ .gc → ∀ b ∈ t.ins, b.const = false → ¬ PointsInto prog b.id a.id := by
+  intro pre0 l
+  induction l generalizing pre0 with
+  | nil =>
+    intro _ _ pre post g h
+    simp [gcBack] at h
+  | cons s rest ih =>
+    intro hprog hdbu pre post g hsplit hgop
+    have hdbu' : dbu rest = true := by
+      simp only [dbu, Bool.and_eq_true] at hdbu; exact hdbu.2
+    have hsin : ∀ a ∈ s.ins, a.const = false → a.id ∉ outs (s :: rest) := by
+      intro a ha hc
+      simp only [dbu, Bool.and_eq_true, List.all_eq_true] at hdbu
+      have := hdbu.1 a ha
+      simp only [hc, Bool.false_or, Bool.not_eq_true', List.contains_eq_mem,
+        decide_eq_false_iff_not] at this
+      exact this
+    have hprog' : prog = (pre0 ++ [s]) ++ rest := by simp [hprog]
+    rw [gcBack_cons_fst] at hsplit
+    cases pre with
+    | nil =>
+      simp only [List.nil_append, List.cons.injEq] at hsplit
+      have : s.op ≠ .gc := hnogc s (by simp [hprog])
+      rw [hsplit.1] at this
+      exact absurd hgop this
+    | cons p pre' =>
+      simp only [List.cons_append, List.cons.injEq] at hsplit
+      obtain ⟨_, hsplit⟩ := hsplit
+      rcases List.append_eq_append_iff.mp hsplit with ⟨m, hm1, hm2⟩ | ⟨m, hm1, hm2⟩
+      · exact ih (pre0 ++ [s]) hprog' hdbu' m post g hm2 hgop
+      · cases m with
+        | nil =>
+          simp only [List.nil_append] at hm2
+          exact ih (pre0 ++ [s]) hprog' hdbu' [] post g (by simpa using hm2.symm) hgop
+        | cons g' m' =>
+          simp only [List.cons_append, List.cons.injEq] at hm2
+          obtain ⟨hgg, hpost⟩ := hm2
+          subst hgg
+          have hgmem : g ∈ (scanIns al s.ins (liveOf al rl rest)).2 := by
+            apply List.mem_reverse.mp
+            rw [hm1]; simp
+          obtain ⟨a, ha, hga, hac, hlive, halias⟩ := scanIns_gcs al _ _ g hgmem
+          refine ⟨a, hga, hac, ?_⟩
+          have ha_undef : a.id ∉ outs rest := by
+            intro h
+            apply hsin a ha hac
+            obtain ⟨d, hd, hdo⟩ := mem_outs.mp h
+            exact mem_outs.mpr ⟨d, List.mem_cons_of_mem _ hd, hdo⟩
+          -- nothing that points into `a` is read in `rest`
+          have key : ∀ w v, PointsInto prog w v → v = a.id →
+              ¬ (∃ t ∈ rest, ∃ b ∈ t.ins, b.const = false ∧ b.id = w) := by
+            intro w v hp
+            induction hp with
+            | self v _ =>
+              intro hv hread
+              subst hv
+              have := live_complete al rl rest a.id hread ha_undef
+              rw [hlive] at this; cases this
+            | step d x w v hd hrw hout hx hxc hrec ihp =>
+              intro hv hread
+              subst hv
+              by_cases hwa : w = a.id
+              · subst hwa
+                have := live_complete al rl rest a.id hread ha_undef
+                rw [hlive] at this; cases this
+              · have hw : w ∈ al a.id := hal w a.id (PointsInto.step d x w a.id hd hrw hout hx hxc hrec) hwa
+                have hwdead := halias w hw
+                by_cases hwdef : w ∈ outs rest
+                · have hdrest : d ∈ rest := by
+                    rw [hprog'] at hd
+                    rcases List.mem_append.mp hd with h | h
+                    · exfalso
+                      rw [hprog', outs_append] at hssa
+                      have hdis := (List.nodup_append.mp hssa).2.2
+                      exact hdis w (mem_outs.mpr ⟨d, h, hout⟩) w hwdef rfl
+                    · exact h
+                  exact ihp rfl ⟨d, hdrest, x, hx, hxc, rfl⟩
+                · have := live_complete al rl rest w hread hwdef
+                  rw [hwdead] at this; cases this
+          intro t ht htop b hb hbc hpt
+          have htrest : t ∈ rest := by
+            rw [hpost] at ht
+            rcases List.mem_append.mp ht with h | h
+            · have hin : t ∈ (scanIns al s.ins (liveOf al rl rest)).2 := by
+                apply List.mem_reverse.mp
+                rw [hm1]; simp [h]
+              obtain ⟨a2, _, hg2, _⟩ := scanIns_gcs al _ _ t hin
+              rw [hg2] at htop
+              exact absurd rfl htop
+            · exact mem_gcBack al rl rest t h htop
+          exact key b.id a.id hpt rfl ⟨t, htrest, b, hb, hbc, rfl⟩
+
 /-! ## From direct safety to `Safe` when there are no chains -/
 
 theorem mem_aliasesOf (prog : List Step) (v w : Nat) :
